@@ -7,7 +7,10 @@ from .. import fam_pipeline as fp
 from .. import gen_models as gm
 from .. import pipeline as pl
 
-THEOREMS = ["C19.other_subgraphs_untouched", "C19.performer_local", "C19.hcodes_needed"]
+THEOREMS = ["C19.other_subgraphs_untouched", "C19.performer_local", "C19.hcodes_needed",
+            # C19c: locality of instruction generation, of the materialisation loop (incl. both passes of the sharing check) and END TO END
+            "C19.genInsts_local", "C19.modify_local", "C19.generate_local_full", "C19.generate_local_partial", "C19.generate_local_ok",
+            "C19.quantize_local", "C19.quantize_local_full", "C19.quantize_local_noShare", "C19.shared_constant_rejected", "C19.check_not_local"]
 
 
 def gen(rng, i):
@@ -44,7 +47,16 @@ def run(ctx):
                 "subgraph i of quantize(model) is compared structurally (ops by builtin code and tensor names, dtypes, quantization parameters, "
                 "sha256 of constant bytes) with subgraph 0 of quantize(extracted single-subgraph model) using the same recipe and the "
                 "statistics restricted to that subgraph; pipeline compared with the Lean model; distinct = distinct (model, recipe)")
-    common.proof_side(ctx, THEOREMS, modules=["QProps.C19", "QProps.C19b"])
+    ctx.explanation = ("END TO END on the model (C19.quantize_local_full): whenever quantizePure succeeds on a multi-subgraph model, it succeeds "
+                       "on the single-subgraph model extracted around subgraph j (same recipe state, statistics, constants) and subgraph j of the "
+                       "result equals the stand-alone result -- tensors (names, dtypes, shapes, buffer indices, quantization parameters), "
+                       "operators (resolved codes, wiring), graph I/O and signatures -- up to an injective renaming of parameter ids under which "
+                       "the parameter objects are ==-equal; only the shared tables are merged. Built from locality of materialisation "
+                       "(generate_local_full, incl. both passes of the buffer-sharing check: compatibility is an equivalence on the requests "
+                       "generate can emit for constants), of instruction generation (genInsts_local) and of the performer (performer_local). "
+                       "The converse is false and stays so (shared_constant_rejected: each subgraph accepted alone, the tied model refused -- "
+                       "the C15 caveat). Buffer CONTENTS are compared by execution (sha256 per constant), not by the theorem.")
+    common.proof_side(ctx, THEOREMS, modules=["QProps.C19", "QProps.C19b", "QProps.C19c"])
     drv = common.Driver()
 
     def per_case(case, res):
